@@ -8,7 +8,7 @@ from .. import probe
 ID = "C08"
 RULE = ("exhaustive: all ordered pairs of the 34 known units + one unknown unit + unitless (36 x 36) x operations "
         "{+, -, <, ==, %, math.min, math.max, math.div, *, math.compatible, math.unit of product} x 3 magnitudes; "
-        "sampled: compound units up to 2x2 factors, round trips a->b->a and a->b->c, emission of compound-unit numbers. "
+        "sampled: products/quotients of up to 3x3 unit factors judged as physical quantities (value in base units + dimension exponents), round trips a->b->a and a->b->c, emission of compound-unit numbers. "
         "non-trivial = at least one operand has a unit; distinct = distinct expression texts.")
 ASSUMPTIONS = ["numeric agreement is judged with relative tolerance 1e-11 (Sass's own equality tolerance)",
                "math.min/math.max (not the CSS min()/max() calculations, which are C16's subject) are used for the min/max operations"]
@@ -45,6 +45,66 @@ def factor(frm, to):
     if c is None or to not in c:
         return None
     return c[frm] / c[to]
+
+
+def _base(u):
+    c = cls(u)
+    if c is None:
+        return 1.0, "u:" + u
+    return c[u], "class:%d" % CLASSES.index(c)
+
+
+def quantity(val, nu, du):
+    """(value expressed in the base unit of every dimension class, sorted [(dimension, exponent)])"""
+    dims = {}
+    q = val
+    for u in nu:
+        if u:
+            f, k = _base(u)
+            q *= f
+            dims[k] = dims.get(k, 0) + 1
+    for u in du:
+        if u:
+            f, k = _base(u)
+            q /= f
+            dims[k] = dims.get(k, 0) - 1
+    return q, sorted((k, e) for k, e in dims.items() if e)
+
+
+def gen_compound(rng):
+    """products/quotients of up to 3 x 3 factors, biased to several mutually convertible factors on one side"""
+    def unit(pref):
+        k = rng.below(10)
+        if pref is not None and k < 6:
+            return rng.choice(list(pref))
+        if k < 8:
+            return rng.choice(UNITS)
+        return rng.choice(["", "foo", "em", "%"])
+    pref = rng.choice(CLASSES)
+    ns = [(rng.choice([1.0, 2.0, 3.0, 0.5, 4.0]), unit(pref)) for _ in range(rng.range(1, 3))]
+    ds = [(rng.choice([1.0, 2.0, 0.5, 4.0]), unit(pref)) for _ in range(rng.range(1, 3))]
+    N = [lit(x, u) for x, u in ns]
+    D = [lit(x, u) for x, u in ds]
+    form = rng.below(5)
+    if form == 0:
+        e = "math.div(%s, %s)" % (" * ".join(N), " * ".join(D))
+    elif form == 1:
+        e = "%s * math.div(1, %s)" % (" * ".join(N), " * ".join(D))
+    elif form == 2:
+        e = " * ".join(N)
+        for d_ in D:
+            e = "math.div(%s, %s)" % (e, d_)
+    elif form == 3:
+        e = "math.div(1, %s) * %s" % (" * ".join(D), " * ".join(N))
+    else:
+        e = " * ".join(["math.div(%s, %s)" % (N[i] if i < len(N) else "1", D[i] if i < len(D) else "1") for i in range(max(len(N), len(D)))])
+    val = 1.0
+    for x, _ in ns:
+        val *= x
+    for x, _ in ds:
+        val /= x
+    q, dims = quantity(val, [u for _, u in ns], [u for _, u in ds])
+    return e, ("quant", q, dims)
 
 
 def lit(x, u):
@@ -139,6 +199,18 @@ def check(sh, e, exp, got):
         return None
     if exp[0] == "either":
         return None if any(check(sh, e, ("num", val, un), got) is None for val, un in exp[1:]) else "expected one of the operands, got %s" % d
+    if exp[0] == "quant":
+        # the physical quantity (value in base units + dimension exponents) is what unit algebra must preserve;
+        # which of several convertible factors survives a cancellation is not fixed by the statement
+        if d.get("t") != "n":
+            return "expected a number, got %s" % d
+        val, nu, du = probe.num(d)
+        q, dims = quantity(val, nu, du)
+        if dims != exp[2]:
+            return "expected dimensions %s, got %s (units %s/%s, value %r)" % (exp[2], dims, nu, du, val)
+        if not close(q / exp[1], 1.0):
+            return "expected the quantity %r (base units), got %r (units %s/%s, value %r)" % (exp[1], q, nu, du, val)
+        return None
     if exp[0] == "num":
         if d.get("t") != "n":
             return "expected a number, got %s" % d
@@ -223,8 +295,11 @@ def run(sh):
     while not sh.expired():
         cases = []
         for _ in range(200):
-            k = rng.below(5)
-            if k == 0:  # round trip a -> b -> a : (1a + 0b) converts b to a; use math.div to convert explicitly
+            k = rng.below(8)
+            if k >= 5:
+                cases.append(gen_compound(rng))
+                sh.count("compound_quantity_cases")
+            elif k == 0:  # round trip a -> b -> a : (1a + 0b) converts b to a; use math.div to convert explicitly
                 c = rng.choice(CLASSES)
                 a, b = rng.choice(list(c)), rng.choice(list(c))
                 x = rng.choice([1.0, 3.0, 0.25, 1234.5])
